@@ -49,7 +49,7 @@ func genReconciler(rng *rand.Rand) qinput {
 	in.Rate = qRates[rng.Intn(len(qRates))]
 	in.WaitNs = qWaits[rng.Intn(len(qWaits))]
 	delta := int64(time.Duration(float64(time.Second) / in.Rate))
-	in.RetryNs = []int64{30 * ms, delta / 2, delta + 50*ms}[rng.Intn(3)]
+	in.RetryNs = []int64{30 * ms, delta / 2 / ms * ms, delta + 50*ms}[rng.Intn(3)] // on the 1 ms grid
 	maxD := delta / 3
 	if rng.Intn(5) == 0 {
 		maxD = 0
